@@ -1,4 +1,4 @@
-use quote::{quote, ToTokens};
+use quote::ToTokens;
 use syn::{spanned::Spanned, Expr, Lit, Meta, Type};
 
 use super::path::path_to_string;
